@@ -525,6 +525,52 @@ impl<'a> Lock<'a> {
         }
     }
 
+    /// "Loading that position from FEN gives that key too", for the neighbours of a job's root that
+    /// differ in rights / e.p. / side only: the key stored by the loader must be the from-scratch key.
+    fn c04_root_variants(&mut self) {
+        let p = self.p().clone();
+        let mut rights_ok = 0u8;
+        if p.sq[4] == oracle::K {
+            if p.sq[7] == oracle::R {
+                rights_ok |= oracle::WK;
+            }
+            if p.sq[0] == oracle::R {
+                rights_ok |= oracle::WQ;
+            }
+        }
+        if p.sq[60] == (oracle::K | 8) {
+            if p.sq[63] == (oracle::R | 8) {
+                rights_ok |= oracle::BK;
+            }
+            if p.sq[56] == (oracle::R | 8) {
+                rights_ok |= oracle::BQ;
+            }
+        }
+        for castle in 0..16u8 {
+            if castle & !rights_ok != 0 {
+                continue;
+            }
+            for stm in 0..2u8 {
+                let q = Pos { sq: p.sq, stm, castle, ep: -1, half: p.half, full: p.full };
+                if !q.is_sane() {
+                    continue;
+                }
+                let fen = q.fen();
+                let Ok(b) = eng::load(&fen) else { continue };
+                self.local.evals += 1;
+                self.local.fen_reloads += 1;
+                let (k, sc) = (key_u64(b.zkey), key_u64(ZKey::from(&b)));
+                if k != sc {
+                    self.viol("fen-key-variant", format!("'{fen}': key after FEN load {k} != from-scratch key {sc}"));
+                }
+                let (prev, _) = self.g.record_ident(&q.ident(), k, 7);
+                if let Some(prev) = prev {
+                    self.viol("path-dependence", format!("'{fen}' loaded from FEN has key {k}, the same position had key {prev} when reached another way"));
+                }
+            }
+        }
+    }
+
     fn c05_check(&mut self) {
         self.local.evals += 1;
         let p = self.p().clone();
@@ -1178,7 +1224,9 @@ impl<'a> Lock<'a> {
         if !p3.legal_moves().iter().any(|m| m.from == back2.from && m.to == back2.to) {
             return false;
         }
-        for _ in 0..2 {
+        // two to four rounds: the position comes back for the third to the fifth time
+        let rounds = 2 + rng.below(3);
+        for _ in 0..rounds {
             for m in [m1, r1, back1, back2] {
                 let legal = self.p().legal_moves();
                 let Some(real) = legal.iter().find(|x| x.from == m.from && x.to == m.to && x.promo == 0) else {
@@ -1325,6 +1373,7 @@ pub fn run_job(prop: Prop, g: &Global, job: &Job, seed: u64) {
     };
     if prop == Prop::C04 {
         l.c04_check("load");
+        l.c04_root_variants();
     }
     match job.kind {
         JobKind::Walk { depth, .. } => l.walk(depth),
